@@ -40,8 +40,13 @@ macro_rules! probe {
     }};
 }
 
-fn sink_subscriber() -> impl tracing::Subscriber + Send + Sync {
-    tracing_subscriber::fmt().with_max_level(tracing::Level::TRACE).with_writer(std::io::sink).finish()
+thread_local! {
+    /// one TRACE-level subscriber per worker thread, writing to a sink (building one per case is slow)
+    static SINK: tracing::Dispatch = tracing::Dispatch::new(tracing_subscriber::fmt().with_max_level(tracing::Level::TRACE).with_writer(std::io::sink).finish());
+}
+
+fn with_sink_subscriber<T>(f: impl FnOnce() -> T) -> T {
+    SINK.with(|d| tracing::dispatcher::with_default(d, f))
 }
 
 /// every read-only operation on an accepted message
@@ -129,8 +134,7 @@ pub fn judge(case: &Case, acc: &mut Acc) {
                 acc.outcome("accepted: all read-only operations run (plain + subscriber)");
                 acc.nontrivial += 1;
                 inspect(acc, case, buf, "");
-                let s = sink_subscriber();
-                tracing::subscriber::with_default(s, || {
+                with_sink_subscriber(|| {
                     probe!(acc, case, "Message::from_bytes+subscriber", Message::from_bytes(buf).is_ok());
                     inspect(acc, case, buf, "+subscriber");
                 });
@@ -156,6 +160,18 @@ pub fn judge(case: &Case, acc: &mut Acc) {
             });
             probe!(acc, case, "Display(RawAttribute)", {
                 let _ = format!("{raw} {raw:?}");
+            });
+            // the same under a TRACE subscriber (log statements only format their arguments then)
+            with_sink_subscriber(|| {
+                probe!(acc, case, &format!("from_raw::<{}>+subscriber", k.name()), {
+                    if let Ok(t) = real::from_raw_typed(k, &raw) {
+                        let _ = t.display();
+                        let _ = t.as_write().to_raw().to_bytes();
+                    }
+                });
+                probe!(acc, case, "Display(RawAttribute)+subscriber", {
+                    let _ = format!("{raw} {raw:?}");
+                });
             });
             acc.outcome(if ok == Some(true) { "typed decode: accepted" } else { "typed decode: refused" });
         }
